@@ -312,8 +312,7 @@ impl EncodingVersion for EncodingVersion1 {
         dynamic_data: &mut DynamicData,
     ) -> XTypesResult<()> {
         deserializer.deserialize_members(dynamic_data)?;
-        Self::seek_to_pid(deserializer, PID_SENTINEL)?;
-        Ok(())
+        Self::seek_to_sentinel(deserializer)
     }
 
     /// Member of mutable aggregated type (structure, union), version 1 encoding
@@ -393,8 +392,7 @@ impl EncodingVersion for EncodingVersion1 {
 
         // The members are looked up from the start of the object and the reader goes back
         // there after each of them. What follows the object is found after the sentinel
-        Self::seek_to_pid(deserializer, PID_SENTINEL)?;
-        Ok(())
+        Self::seek_to_sentinel(deserializer)
     }
 
     /// Extensibility APPENDABLE (Collection or Aggregated types), version 1
@@ -407,6 +405,26 @@ impl EncodingVersion for EncodingVersion1 {
         dynamic_data: &mut DynamicData,
     ) -> XTypesResult<()> {
         deserializer.deserialize_t_as_final(dynamic_data)
+    }
+}
+
+impl EncodingVersion1 {
+    /// Skips the members of a mutable type up to and including the end of its parameter list:
+    ///   << { PID_SENTINEL : UInt16 }
+    ///   << { length = 0 : UInt16 }
+    /// A member whose id has the value of PID_SENTINEL is not the end of the list
+    fn seek_to_sentinel<'a, E: EndiannessRead>(
+        deserializer: &mut XTypesDeserializer<'a, E, Self>,
+    ) -> XTypesResult<()> {
+        loop {
+            let current_pid: u16 = deserializer.deserialize_primitive_type()?;
+            let length: u16 = deserializer.deserialize_primitive_type()?;
+            if current_pid & 0b00111111_11111111 == PID_SENTINEL && length == 0 {
+                return Ok(());
+            }
+            deserializer.reader.seek(length as usize)?;
+            Self::align(deserializer, 4)?;
+        }
     }
 }
 
